@@ -21,6 +21,7 @@
                        normalize_cartesian_coordinates (`self.x.data = new`), to_xarray
    Definitions only. *)
 From Verif Require Export Base.
+From Verif Require Export C19_flags.
 
 Inductive c19_cell : Type :=
 | C19Buf (data : list Z)
@@ -631,3 +632,67 @@ Definition c19_grid_copy (h : c19_heap) (g : c19_grid) : c19_heap * c19_grid :=
 (* variant: copy.copy(self) with a deep-copied _ds — the containers are the very same objects *)
 Definition c19_grid_copy_shallow (h : c19_heap) (g : c19_grid) : c19_heap * c19_grid :=
   let '(h1, d1) := c19_copy h (g_ds g) in (h1, {| g_ds := d1; g_aux := g_aux g |}).
+
+(* ---- sessions: objects with identities, operations, ownership ----
+   A world is the heap plus the list of dataset roots that are alive: the `_ds` of every Grid made so
+   far and every dataset handed to the caller by to_xarray("ugrid").  Operations: copy the k-th root
+   (Grid.copy), export it (to_xarray), or apply one mutator through it — a public Grid mutator for a
+   grid, any edit at all (in-place writes included) for a dataset the caller owns.
+   The flags say whether copy / export go through a deep copy (regenerated from the source). *)
+Record c19_sflags := { fl_copy_deep : bool; fl_export_deep : bool }.
+
+Definition c19_sflags_current : c19_sflags :=
+  {| fl_copy_deep := c19_f_copy_deep; fl_export_deep := c19_f_export_deep |}.
+
+Inductive c19_sop : Type :=
+| C19SCopy (k : nat)
+| C19SExport (k : nat)
+| C19SOp (k : nat) (o : c19_op).
+
+Definition c19_world := (c19_heap * list nat)%type.
+
+Definition c19_sstep (fl : c19_sflags) (w : c19_world) (s : c19_sop) : c19_world :=
+  let '(h, roots) := w in
+  match s with
+  | C19SCopy k =>
+      match nth_error roots k with
+      | Some r => if fl_copy_deep fl then let '(h', r') := c19_deepcopy h r in (h', roots ++ [r'])
+                  else (h, roots ++ [r])
+      | None => w
+      end
+  | C19SExport k =>
+      match nth_error roots k with
+      | Some r =>
+          let '(h1, r1) := if fl_export_deep fl then c19_deepcopy h r else (h, r) in
+          (c19_apply (c19_apply h1 r1 (C19DelVar c19_GRID_TOPOLOGY)) r1 (C19SetVar c19_GRID_TOPOLOGY [-1] [(0, 0)]),
+           roots ++ [r1])
+      | None => w
+      end
+  | C19SOp k o =>
+      match nth_error roots k with
+      | Some r => (c19_apply h r o, roots)
+      | None => w
+      end
+  end.
+
+Definition c19_srun (fl : c19_sflags) (w : c19_world) (l : list c19_sop) : c19_world :=
+  fold_left (c19_sstep fl) l w.
+
+(* which roots report something else after a step than before (for the correspondence run) *)
+Definition c19_obs_eqb (h h' : c19_heap) (r : nat) : bool :=
+  match c19_obs h r, c19_obs h' r with
+  | Some (vs, a), Some (vs', a') =>
+      c19_cell_eqb a a' && (length vs =? length vs')%nat &&
+      forallb (fun p => (fst (fst p) =? fst (snd p)) &&
+                        match snd (fst p), snd (snd p) with
+                        | Some (b, at'), Some (b', at'') => c19_cell_eqb b b' && c19_cell_eqb at' at''
+                        | None, None => true
+                        | _, _ => false
+                        end) (combine vs vs')
+  | None, None => true
+  | _, _ => false
+  end.
+
+Definition c19_changed_roots (w w' : c19_world) : list nat :=
+  flat_map (fun p => if c19_obs_eqb (fst w) (fst w') (snd p) then [] else [fst p])
+           (combine (seq 0 (length (snd w))) (snd w)).
